@@ -24,6 +24,15 @@ CLAIMED = {
     'C04': ('proof', 'Token/Trivia line accessors proved for all line numbers; replace_with_content / shift_token_line / replace_referenced_tokens '
                      'keep or shift the recorded line (bounded in trivia count); writer invariant current_line == 1 + newlines written and '
                      'newline padding up to the recorded line (bounded strings / padding distance)'),
+    'C12': ('proof', 'panic-freedom of the kernel: every Kani harness also checks absence of panics, unwrap/expect failures, index errors and '
+                     'arithmetic overflow inside the function under contract for all inputs of its domain (complete for the loop-free ones, '
+                     'bounded otherwise); byte-range reads under the explicit caller obligation that the range belongs to the text. '
+                     'Parser, converter, rule pipelines and error plumbing are not covered'),
+    'C13': ('proof', 'literal kernel: must-escape byte classes for all 256 bytes, quote choice, hex/binary literal values for all 64-bit digits and '
+                     'all 32-bit exponents; the escape reader only on enumerated inputs (symbolic input is out of reach, measured); '
+                     'escape(), write_quoted, write_number, decimal parsing are out of reach (format!/float formatting)'),
+    'C14': ('other', 'key-quoting kernel only, bounded: is_valid_identifier(s) ==> s is a Lua Name and not reserved; reserved words rejected. '
+                     'Serializer and literal writers not covered'),
     'C18': ('other', 'bounded: trivia filters (clear_comments, clear_whitespaces, filter_comments) keep the code token and select exactly the '
                      'right trivia; line-comment detection equals the long-bracket rule; the writer always breaks the line after a line comment '
                      'before code. append_text_comment::text, the regex filter and the remove_spaces visitor are not covered'),
